@@ -172,11 +172,31 @@ fn main() {
         match r {
             Ok(_) => run.finish(),
             Err(e) => {
-                eprintln!("machinery: engine panicked: {}", world::panic_msg(&e));
-                for l in world::PANIC_LOG.lock().unwrap().iter().rev().take(5) {
-                    eprintln!("  {}", l);
+                // A panic that unwound into the driver.  If it was raised inside the code under
+                // test (location in the repository's sources) while the driver called it directly,
+                // the code under test failed: that is a verdict, and whatever the check had already
+                // found is reported with it.  A panic of the harness itself is a machinery error.
+                let msg = world::panic_msg(&e);
+                let last = world::PANIC_LOG.lock().unwrap().last().cloned().unwrap_or_default();
+                let in_subject = last.contains("/repo/src/") || last.contains("/seedtry/repo/src/") || last.contains("seedtrysrc/");
+                if in_subject {
+                    let loc = last.rsplit(" @ ").next().unwrap_or("").replace("/repo/", "");
+                    run.violate(report::Violation {
+                        clause: "code-under-test-panicked-in-the-driver-thread".into(),
+                        shape: format!("{} @ {}", msg.chars().take(80).collect::<String>(), loc),
+                        detail: format!("the check was aborted by a panic raised inside the code under test while the driver called it: {}", last),
+                        replay: serde_json::json!({"engine":"driver","panic":last}),
+                    });
+                    run.cov("aborted_by_panic_in_code_under_test", serde_json::json!(true));
+                    run.cov("exhaustive", serde_json::json!(false));
+                    run.finish()
+                } else {
+                    eprintln!("machinery: engine panicked: {}", msg);
+                    for l in world::PANIC_LOG.lock().unwrap().iter().rev().take(5) {
+                        eprintln!("  {}", l);
+                    }
+                    2
                 }
-                2
             }
         }
     };
